@@ -160,7 +160,7 @@ def observe(seed, tier):
         S["ok"] = False
         hit("C13", "cff failed on a package of Parallel programs (exit %d): %s" % (rc, out.strip().split("\n")[-1][:200]), {"output": out[-4000:], "module": mod})
     else:
-        rcv, o, e = common.run(["go", "vet", "./gen"], cwd=mod, env=common.GOENV, check=False, timeout=900)
+        rcv, o, e = common.run(["go", "build", "./gen/..."], cwd=mod, env=common.GOENV, check=False, timeout=900)
         if rcv != 0:
             S["ok"] = False
             errs = [l for l in (o + e).split("\n") if "_gen.go" in l]
